@@ -188,10 +188,7 @@ def _graph_case(item):
             mm, sem = fam.load()
             parser, kernel = dgfam.parsed_kernel(isa, texts)
             sem.add_semantics(kernel)
-            g = drive.KernelDG.__new__(drive.KernelDG)
-            g.timed_out = False
-            g.kernel, g.parser, g.model, g.arch_sem = kernel, parser, mm, sem
-            g.dg = g.create_DG(kernel, False)
+            g = drive.graph_only(kernel, parser, mm, sem, False)
             got = g.dg.has_edge(kernel[0].line_number, kernel[1].line_number)
         except Exception as e:
             bad.append((c, None, "exception %s: %s" % (type(e).__name__, str(e)[:120])))
